@@ -5,7 +5,10 @@ package secretstore
 import (
 	"context"
 	"fmt"
+	"runtime"
+	"sync"
 	"testing"
+	"time"
 
 	"berty.tech/weshnet/v2/internal/verifkit"
 	"berty.tech/weshnet/v2/pkg/protocoltypes"
@@ -228,6 +231,73 @@ func TestVerifC05A(t *testing.T) {
 						"examples": []string{atts[0].id, atts[3].id, atts[len(atts)-1].id}})
 				}
 			}
+		}
+	}
+	// concurrent first announcements: a device that has no chain key yet for the group is asked for announcements by several
+	// tasks at once (seeded delays around every datastore access); every announcement must carry the chain key the device
+	// ends up holding, otherwise its recipient opens nothing
+	for round := 0; round < verifkit.Pick(24, 240); round++ {
+		kind := groupKinds[round%len(groupKinds)]
+		w := newC05World(kind, 100)
+		g, s := w.g, w.s
+		sDevPK := s.devicePK(g)
+		lr := verifkit.Rand(fmt.Sprintf("c05a-first-%d", round))
+		var pmu sync.Mutex
+		s.ds.Perturb = func(op, key string) {
+			pmu.Lock()
+			d := time.Duration(lr.Intn(300)) * time.Microsecond
+			pmu.Unlock()
+			if d > 150*time.Microsecond {
+				time.Sleep(d)
+			} else {
+				runtime.Gosched()
+			}
+		}
+		recips := []*vStore{w.t, w.t2, w.t, w.t2}
+		anns := make([][]byte, len(recips))
+		errs := make([]error, len(recips))
+		var wg sync.WaitGroup
+		gate := make(chan struct{})
+		for i := range recips {
+			wg.Add(1)
+			go func(i int) {
+				defer wg.Done()
+				<-gate
+				anns[i], errs[i] = s.ss.GetShareableChainKey(ctx, g, recips[i].memberPK(g))
+			}(i)
+		}
+		close(gate)
+		wg.Wait()
+		s.ds.Perturb = nil
+		stored, err := s.ss.getDeviceChainKeyForGroupAndDevice(ctx, groupPK(g), sDevPK)
+		rep.Case(fmt.Sprintf("concurrent-first-announcement/%s/%d", kind, round))
+		if err != nil {
+			rep.Violate("C05/concurrent-first-announcement/no-chain-key", "after concurrent first announcements the device holds no chain key: "+err.Error(), round)
+			continue
+		}
+		p := randBytes(lr, 12)
+		env, serr := s.ss.SealEnvelope(ctx, g, wrapPayload(p))
+		for i, r := range recips {
+			rep.Eval(1)
+			if errs[i] != nil {
+				rep.Violate("C05/announce-error/"+kind, errs[i].Error(), round)
+				continue
+			}
+			dck, err := decryptDeviceChainKey(anns[i], g, r.md(g).member, sDevPK)
+			if err != nil || dck.Counter != 0 || !sameBytes(dck.ChainKey, stored.ChainKey) {
+				rep.Violate("C05/not-exact/concurrent-first-announcement", fmt.Sprintf("an announcement made while the device's chain key was being created does not carry the chain key the device holds (err=%v)", err),
+					map[string]interface{}{"group": kind, "round": round, "caller": i})
+				continue
+			}
+			if serr == nil {
+				d := r.clone()
+				if err := d.ss.RegisterChainKey(ctx, g, sDevPK, anns[i]); err != nil {
+					rep.Violate("C05/recipient-cannot-register/"+kind, err.Error(), round)
+				} else if res := d.openEnv(ctx, g, env, cidOf(env)); res.err != nil || !sameBytes(res.payload, p) {
+					rep.Violate("C05/subsequent-not-openable/"+kind, fmt.Sprintf("the sender's next message does not open with an announcement made concurrently with its first use (err=%v)", res.err), round)
+				}
+			}
+			rep.Count("concurrent_first_announcements_exact", 1)
 		}
 	}
 	if rep.Counter("registered") == 0 || rep.Counter("refused") == 0 {
